@@ -110,6 +110,14 @@ def handlePushdown : Handler := fun inp out => do
       -- property on the implementation's outputs: a row the filter selects must
       -- survive the lateral join whenever the real code pushed the address filter
       let f := bf.getD (.and [])
+      -- besides the random rows: one witness account per address mentioned by the filter
+      -- (`$in` members as they are; patterns instantiated: empty segment ↦ "w", final
+      -- `...` dropped), so that every address leaf selects something
+      let witness (s : String) : Entity :=
+        let segs := strSegs s
+        let segs := if segs.getLast? == some dots then segs.dropLast else segs
+        { address := segs.map fun g => if g.isEmpty then ['w'] else g }
+      let rows := rows ++ ((addrs f).eraseDups.map witness).filter (fun e => !e.address.isEmpty)
       let selected := rows.filter fun e => Filter.eval (leafSem parseRFC3339 e) f
       let dropped := selected.filter fun e => gPushed && !lateralKeeps gAddrs e.address
       let prop := gPanic == "" && dropped.isEmpty
